@@ -57,12 +57,14 @@ Proof.
   symmetry. apply Hall. auto.
 Qed.
 
-Lemma Inv_after_write : forall st x p, hdr_ok x -> GC (canon st) p ->
-  (p = x \/ parent_of T x p \/ hnum x = 0) -> Inv (write_head_block st x).
+Lemma Inv_after_write : forall fuel st x st' p, write_head_block fuel st x = Some st' ->
+  hdr_ok x -> GC (canon st) p ->
+  (p = x \/ parent_of T x p \/ hnum x = 0) -> Inv st'.
 Proof.
-  intros st [h b] p Hx HG Hc. exists b, b. cbn [write_head_block hd_header hd_block canon fst snd].
+  intros fuel st [h b] st' p HW Hx HG Hc. exists b, b.
+  destruct (whb_spec _ _ _ _ HW) as (c1 & _ & _ & _ & Eb & Eh & _). rewrite Eb, Eh. cbn [fst].
   split; [exact Hx|]. split; [exact Hx|]. split; [|split].
-  - apply (GC_write T (canon st) (h, b) p); auto.
+  - eapply (GC_whb T); eauto.
   - lia.
   - apply (anc_self T (h, b)); auto.
 Qed.
@@ -73,16 +75,17 @@ Proof.
   intros fuel st x st' ev HI Hx H. unfold write_known_block, reorg_if_needed in H.
   destruct (Inv_cur st HI) as (cb & Hcur & Hcok & HGc).
   destruct (N.eqb_spec (b_parent (snd x)) (hd_block st)) as [E|E].
-  - inversion H; subst. apply Inv_after_write with (p := (hd_block st, cb)); auto.
+  - destruct (write_head_block fuel st x) as [st2|] eqn:EW; [|discriminate]. inversion H; subst.
+    apply (Inv_after_write _ _ _ _ (hd_block st, cb) EW); auto.
     destruct (wf_parent x Hx) as [E0|(p & Hp)]; auto.
     right; left. destruct Hp as (Hpo & Hf & Hn). unfold CanonicalProofs.hdr_ok in Hpo, Hcok.
     cbn [fst snd] in *. rewrite E in Hpo. rewrite Hpo in Hcok. inversion Hcok; subst.
     repeat split; auto; try (unfold CanonicalProofs.hdr_ok; cbn; congruence).
   - rewrite Hcur in H.
     destruct (reorg T fuel st (hd_block st, cb) x) as [[st1 ev1]|] eqn:ER; [|discriminate].
-    inversion H; subst.
+    destruct (write_head_block fuel st1 x) as [st2|] eqn:EW; [|discriminate]. inversion H; subst.
     destruct (reorg_GC T _ _ _ _ _ _ ER Hcok Hx HGc) as (p & HGp & Hpo & Hcase & _).
-    apply Inv_after_write with (p := p); auto. tauto.
+    apply (Inv_after_write _ _ _ _ p EW); auto. tauto.
 Qed.
 
 Lemma skip_known_ok : forall st cn l first l' f', skip_known st cn first l = (l', f') ->
@@ -185,20 +188,21 @@ Proof.
   intros fuel st old new st' evs H. rewrite reorg_unfold in H.
   destruct (reorg_walk T fuel st old new) as [[[c oc] nc]|]; [|discriminate].
   cbv zeta in H.
+  destruct (fold_whb fuel (rev (tl nc)) st) as [st1|] eqn:EF; [|discriminate].
   match type of H with context [del_canon_from fuel ?cc ?ii] =>
     destruct (del_canon_from fuel cc ii) as [c'|]; [|discriminate] end.
-  inversion H; subst. repeat split; cbn; apply (fold_whb_frame (rev (tl nc)) st).
+  inversion H; subst. repeat split; cbn; apply (fold_whb_frame _ _ _ _ EF).
 Qed.
 
 Lemma wkb_known : forall fuel st x st' ev, write_known_block T fuel st x = Ok (st', ev) ->
   known st' = known st.
 Proof.
-  intros fuel st x st' ev H. unfold write_known_block, reorg_if_needed in H.
-  destruct (b_parent (snd x) =? hd_block st).
-  - inversion H; subst. reflexivity.
-  - destruct (cur_hdr T st) as [cur|]; [|discriminate].
-    destruct (reorg T fuel st cur x) as [[st1 ev1]|] eqn:ER; [|discriminate].
-    inversion H; subst. cbn. apply (reorg_frame _ _ _ _ _ _ ER).
+  intros fuel st x st' ev H. unfold write_known_block in H.
+  destruct (reorg_if_needed T fuel st x) as [[st1 ev1]|] eqn:ER; [|discriminate].
+  destruct (write_head_block fuel st1 x) as [st2|] eqn:EW; [|discriminate]. inversion H; subst.
+  destruct (whb_spec _ _ _ _ EW) as (_ & _ & _ & (Ek & _) & _). rewrite Ek.
+  unfold reorg_if_needed in ER. destruct (b_parent (snd x) =? hd_block st); [inversion ER; subst; auto|].
+  destruct (cur_hdr T st) as [cur|]; [|discriminate]. apply (reorg_frame _ _ _ _ _ _ ER).
 Qed.
 
 (* ---- the import machinery preserves any predicate preserved by its four
@@ -219,10 +223,11 @@ Proof.
   intros fuel st x st' ev HI Hx H. unfold write_block_and_set_head in H.
   destruct (write_block_with_state st x) as [st1|] eqn:EW; [|discriminate].
   destruct (reorg_if_needed T fuel st1 x) as [[st2 ev2]|] eqn:ER; [|discriminate].
+  destruct (write_head_block fuel st2 x) as [st3|] eqn:EH; [|discriminate].
   inversion H; subst.
   apply (P_wkb fuel st1 x _ ev2); eauto.
   - apply (wbws_known _ _ _ 0 EW).
-  - unfold write_known_block. now rewrite ER.
+  - unfold write_known_block. now rewrite ER, EH.
 Qed.
 
 Lemma write_knowns_gen : forall fuel l st first last evs st' l' f' last' evs' e',
@@ -407,8 +412,11 @@ Proof.
       first [exact W1 | exact W2 | exact W3 | exact W4 | exact ER | exact Hx | (split; assumption)]. }
   destruct HI1 as (HP1 & HK1).
   destruct e1; [inversion H; subst; auto|].
-  destruct (reorg_if_needed T fuel st1 x) as [[st2 ev2]|] eqn:ERI; inversion H; subst; auto.
-  apply (P_wkb fuel st1 x _ ev2); auto. unfold write_known_block. now rewrite ERI.
+  destruct (reorg_if_needed T fuel st1 x) as [[st2 ev2]|] eqn:ERI; [|inversion H; subst; auto].
+  destruct (write_head_block fuel st2 x) as [st3|] eqn:EH; inversion H; subst.
+  - apply (P_wkb fuel st1 x _ ev2); auto. unfold write_known_block. now rewrite ERI, EH.
+  - (* out of fuel after the reorg: the state returned is the reorg's *)
+    exact HP1.
 Qed.
 
 Lemma get_by_hash_known : forall st h x, get_by_hash T st h = Some x ->
